@@ -741,6 +741,13 @@ func (pe *PolicyEngine) AddPodByNameAndNamespace(name, ns string) (Peer, error) 
 	return &k8s.WorkloadPeer{Pod: newPod}, nil
 }
 
+// representativeSpelling returns a string that orders the ways in which the selectors of one representative peer
+// may be written; a peer placed in a namespace comes before a peer with a selector of that namespace's name
+func representativeSpelling(pod *k8s.Pod) string {
+	return fmt.Sprintf("%t|%s|%s", pod.Namespace == "", pod.RepresentativeNsLabelSelector.String(),
+		pod.RepresentativePodLabelSelector.String())
+}
+
 // addRepresentativePod adds a new representative pod to the policy-engine (to pe.representativePeersMap).
 // if the given namespace string (podNs) is not empty (i.e. a real (policy's) namespace name), it will be assigned to the pod's Namespace;
 // and the "namespace name" requirement of the representative pod will be stored in its RepresentativeNsLabelSelector field.
@@ -790,8 +797,12 @@ func (pe *PolicyEngine) addRepresentativePod(podNs string, objSelectors *k8s.Sin
 		return err
 	}
 	keyStrFromLabels := nsKey + "/" + podKey
-	if _, ok := pe.representativePeersMap[keyStrFromLabels]; ok { // we already have a representative peer with same labels
-		return nil
+	if oldPeer, ok := pe.representativePeersMap[keyStrFromLabels]; ok { // we already have a representative peer with same labels
+		// equal selectors may be written in several ways (matchLabels or an In expression, values in any order, the policy's
+		// namespace or a selector of its name); the peer keeps one of them whatever the order in which the rules are met
+		if representativeSpelling(newPod) >= representativeSpelling(oldPeer.Pod) {
+			return nil
+		}
 	}
 	// create a new representative peer
 	newRepresentativePeer := &k8s.WorkloadPeer{Pod: newPod}
